@@ -52,10 +52,25 @@ def _strip_comments(src: str) -> str:
     return src
 
 
-def lean_source_audit() -> list[str]:
+def lean_closure(roots: list[str]) -> list[Path]:
+    """the given Lean files plus everything of this package they import, transitively"""
+    todo = [LEAN / r for r in roots]
+    seen: dict[Path, None] = {}
+    while todo:
+        p = todo.pop()
+        if p in seen or not p.exists():
+            continue
+        seen[p] = None
+        for m in re.finditer(r"^import\s+(PwVerif(?:\.\w+)+)", p.read_text(), flags=re.M):
+            todo.append(LEAN / (m.group(1).replace(".", "/") + ".lean"))
+    return sorted(seen)
+
+
+def lean_source_audit(roots: list[str] | None = None) -> list[str]:
     """grep the Lean sources (comments discarded) for forbidden constructs"""
     hits = []
-    for p in sorted(LEAN.rglob("*.lean")):
+    files = lean_closure(roots) if roots else sorted(LEAN.rglob("*.lean"))
+    for p in files:
         if ".lake" in p.parts:
             continue
         for i, line in enumerate(_strip_comments(p.read_text()).splitlines(), 1):
@@ -64,13 +79,13 @@ def lean_source_audit() -> list[str]:
     return hits
 
 
-def lake_build(timeout=1500) -> tuple[bool, str]:
+def lake_build(targets: list[str] | None = None, timeout=1500) -> tuple[bool, str]:
     (LEAN / ".lake").mkdir(exist_ok=True)
     lock = open(LEAN / ".lake" / "verif.lock", "w")
     fcntl.flock(lock, fcntl.LOCK_EX)
     try:
         r = subprocess.run(
-            ["lake", "build"], cwd=LEAN, capture_output=True, text=True, timeout=timeout
+            ["lake", "build", *(targets or [])], cwd=LEAN, capture_output=True, text=True, timeout=timeout
         )
         return r.returncode == 0, (r.stdout + r.stderr)
     finally:
@@ -113,11 +128,18 @@ class ProofStatus:
     wall_s: float
 
 
-def check_proofs(prop_file: str, theorems: list[str]) -> ProofStatus:
+def check_proofs(prop_file: str, theorems: list[str], driver: str | None = None) -> ProofStatus:
     t0 = time.time()
     broken: list[str] = []
-    built, log = lake_build()
-    hits = lean_source_audit()
+    roots = [prop_file] + ([driver] if driver else [])
+    # build exactly the modules this property depends on (the whole library is built by setup_cmd)
+    mods = [
+        str(p.relative_to(LEAN)).removesuffix(".lean").replace("/", ".")
+        for p in lean_closure(roots)
+        if p.relative_to(LEAN).parts[0] == "PwVerif"
+    ]
+    built, log = lake_build(mods)
+    hits = lean_source_audit(roots)
     if hits:
         broken.append("source-audit: " + "; ".join(hits[:5]))
     axioms: dict[str, list[str]] = {}
@@ -248,6 +270,10 @@ def load_known_findings(prop: str) -> list[dict]:
         return []
     data = json.loads(p.read_text())
     return [f for f in data.get("findings", []) if f.get("property") == prop]
+
+
+def _unused():
+    return None
 
 
 def match_finding(sig: dict, findings: list[dict]) -> dict | None:
